@@ -1,6 +1,6 @@
 """C09 — tokens are always given back."""
 FUNCS = ["ProcessCounterToken.release", "CounterToken.release", "TokenFile.delete", "CounterTokenLock._release",
-         "Lock.release", "Lock.__exit__", "Locks._release"]
+         "Lock.release", "Lock.__exit__", "Locks._release", "TokenFile.watch.run"]
 LEVEL = "proof"
 TRUSTED = []
 
